@@ -63,7 +63,8 @@ class PolarizedRays(RealRays):
         if state.is_polarized:
             E0 = self._get_3d_electric_field(state)
             E1 = self.get_output_field(E0)
-            self.i = np.sum(np.abs(E1)**2, axis=1)
+            # scale by the current (clipped / absorbed) scalar intensity
+            self.i = np.sum(np.abs(E1)**2, axis=1) * self.i
         else:
             # Local x-axis field
             state_x = PolarizationState(is_polarized=True, Ex=1.0, Ey=0.0,
@@ -78,9 +79,9 @@ class PolarizedRays(RealRays):
             E1_y = self.get_output_field(E0_y)
 
             # average two orthogonal polarizations to get mean intensity,
-            # scale by initial ray intensity
+            # scale by current (clipped / absorbed) ray intensity
             self.i = (np.sum(np.abs(E1_x)**2, axis=1) +
-                      np.sum(np.abs(E1_y)**2, axis=1)) * self._i0 / 2
+                      np.sum(np.abs(E1_y)**2, axis=1)) * self.i / 2
 
     def update(self, jones_matrix: np.ndarray = None):
         """
